@@ -104,6 +104,7 @@ def rand_type(rnd: random.Random, depth: int, hashable: bool = False) -> dict:
 def rand_cls(rnd: random.Random, depth: int, struct_only: bool = False) -> dict:
     _cls_counter[0] += 1
     names = rnd.sample([n for n in NAMES if n != 's_c' or True], rnd.randint(1, 3))
+    aliases, used = ['s_v', 's_W', 's_X', 's_AbCd', 's_abCd', 's_ab_cd'], set()
     fs = []
     seen_default = False
     for n in names:
@@ -116,24 +117,49 @@ def rand_cls(rnd: random.Random, depth: int, struct_only: bool = False) -> dict:
         if has_def:
             m = member(rnd, T, 2)
             d = {'k': 'val', 'v': {'k': 'none'}} if m is None else {'k': 'unchecked', 'v': m}
-        ins = [n] if rnd.random() < 0.8 else [n, 's_' + n[2:] + n[2:]] if False else [n]
-        fs.append({'n': n, 't': T, 'd': d, 'kw': kw, 'ins': ins, 'out': n, 'ex': 'F', 'init': 'T'})
+        # naming: the Python name / the name plus an alias / explicit input names; the output name is an input name
+        # most of the time (else the class does not read what it writes: outside the round-trip precondition)
+        r = rnd.random()
+        spare = [a for a in aliases if a not in used]
+        if r < 0.7 or not spare:
+            ins = [n]
+        else:
+            a1 = rnd.choice(spare)
+            used.add(a1)
+            ins = [n, a1] if r < 0.85 else [a1]
+        r = rnd.random()
+        out = (n if n in ins else ins[0]) if r < 0.75 else ins[-1] if r < 0.9 else vocab.tok('zz_' + vocab.text(n))
+        fs.append({'n': n, 't': T, 'd': d, 'kw': kw, 'ins': ins, 'out': out, 'ex': 'F', 'init': 'T'})
     # defaults must be typed values: only keep defaults whose data form equals its image (scalars of the exact kind), else none-default
     for f in fs:
         if f['d']['k'] == 'unchecked':
             v = f['d']['v']
             ok = f['t']['k'] in ('int', 'str', 'bool', 'none') and v['k'] == f['t']['k']
             f['d'] = {'k': 'val', 'v': v} if ok else {'k': 'nodef', 'v': {'k': 'none'}}
+        # default factories for container fields
+        if f['d']['k'] == 'nodef' and f['t']['k'] in ('list', 'set') and rnd.random() < 0.5:
+            f['d'] = {'k': 'fac', 'v': {'k': 'seq', 'f': 'list', 'xs': []} if f['t']['k'] == 'list' else {'k': 'set', 'f': 'set', 'es': []}}
+        # a field with a default may be excluded from output, or not be an init field at all (then also excluded)
+        if f['d']['k'] != 'nodef':
+            r = rnd.random()
+            if r < 0.1:
+                f['ex'] = 'T'
+            elif r < 0.18:
+                f['ex'], f['init'] = 'T', 'F'
     # mandatory after optional is a definition error: order positional fields required-first
     pos = [f for f in fs if f['kw'] == 'F']
     kws = [f for f in fs if f['kw'] == 'T']
-    pos.sort(key=lambda f: f['d']['k'] != 'nodef')
+    pos.sort(key=lambda f: (f['d']['k'] != 'nodef'))
     inf = ['struct'] if (struct_only or rnd.random() < 0.5) else rnd.choice([['struct', 'tuple'], ['tuple']])
     if 'tuple' in inf and any(f['d']['k'] == 'nodef' for f in kws):
         inf = ['struct']
     outf = 'struct' if 'struct' in inf and rnd.random() < 0.7 else inf[-1]
+    hook = {'k': 'nohook'}
+    numeric = [f for f in fs if f['t']['k'] in ('int', 'float') and f['init'] == 'T']
+    if numeric and rnd.random() < 0.12:
+        hook = {'k': 'rejectif', 'f': rnd.choice(numeric)['n'], 'c': rnd.choice([{'k': 'neg'}, {'k': 'pos'}, {'k': 'ge', 'q': [5, 1]}])}
     return {'k': 'cls', 'name': f'RC{_cls_counter[0]}', 'fs': pos + kws, 'inf': inf, 'outf': outf,
-            'extra': 'T' if rnd.random() < 0.2 else 'F', 'hook': {'k': 'nohook'}}
+            'extra': 'T' if rnd.random() < 0.2 else 'F', 'hook': hook}
 
 
 def atom(rnd, kind):
@@ -196,10 +222,12 @@ def member(rnd, T, fuel: int = 4):
         if 'struct' in T['inf'] and (rnd.random() < 0.7 or 'tuple' not in T['inf']):
             ps = []
             for f in T['fs']:
+                if f.get('init', 'T') == 'F':
+                    continue
                 if f['d']['k'] == 'nodef' or rnd.random() < 0.5:
                     ps.append([{'k': 'str', 's': rnd.choice(f['ins'])}, member(rnd, f['t'], fuel - 1)])
             return {'k': 'map', 'f': 'dict', 'ps': ps}
-        pos = [f for f in T['fs'] if f['kw'] == 'F']
+        pos = [f for f in T['fs'] if f['kw'] == 'F' and f.get('init', 'T') == 'T']
         n = len([f for f in pos if f['d']['k'] == 'nodef'])
         n = rnd.randint(n, len(pos))
         return {'k': 'seq', 'f': rnd.choice(['list', 'tuple']), 'xs': [member(rnd, f['t'], fuel - 1) for f in pos[:n]]}
